@@ -37,7 +37,19 @@ def nd_blocks():
 
 
 BLOCKS = nd_blocks()
-WS = ["pad-left", "pad-right", "pad-both", "double", "tab", "newline", "nbsp", "space-tab-space", "mixed", "colon"]
+WS = ["pad-left", "pad-right", "pad-both", "double", "tab", "newline", "nbsp", "space-tab-space", "mixed", "colon", "space-colon", "colon-space",
+      "tab-colon", "nbsp-colon-nbsp", "pad-both-colon"]
+# one string per special case of the sanitizer (", в", "г.", the Croatian "d. m. yyyy. u", "on:", "»", "·", a period after letters,
+# apostrophe look-alikes), and numeric strings that are also epoch numbers, with and without date_formats
+SPECIAL = [
+    ("ru", "12 января 2020, в 10:30", None), ("bg", "12 януари 2020, в 10:30", None), ("ru", "12 января 2020 г. 10:30", None),
+    ("ru", "12 января 2020 г., в 10:30", None), ("hr", "12. 1. 2020. u 10:30", None), ("hr", "12. 01. 2020.", None), ("en", "posted on: 12 January 2020", None),
+    ("en", "12 Jan. 2020 10:30", None), ("fr", "12 janv. 2020", None), ("en", "» 12 January 2020", None), ("en", "12 January 2020 · 10:30", None),
+    ("en", "Jan 12 ’20", None), ("en", "12 January 2020 10:30 a.m.", None), ("de", "12. Januar 2020 um 10:30 Uhr", None),
+    ("en", "1570308760", None), ("en", "1570308760123", None), ("en", "2020010212", ["%Y%m%d%H"]), ("en", "02-03-04", ["%y-%m-%d"]),
+    ("en", "2014-12-31 10:30", ["%Y-%m-%d %H:%M"]), ("en", "31 December 2014", ["%d %B %Y"]), ("fr", "31 décembre 2014", ["%d %B %Y"]),
+    ("en", "10:30", ["%H:%M"]), ("en", "1000000000", ["%H%M%S%d%m"]), ("en", "12/2014", ["%m/%Y"]),
+]
 
 
 def rewrite(s, rw):
@@ -69,6 +81,16 @@ def rewrite(s, rw):
         return "".join(out)
     if rw == "colon":
         return s + ":"
+    if rw == "space-colon":
+        return s + " :"
+    if rw == "colon-space":
+        return s + ": "
+    if rw == "tab-colon":
+        return s + "\t:"
+    if rw == "nbsp-colon-nbsp":
+        return s + "\xa0:\xa0"
+    if rw == "pad-both-colon":
+        return " \n" + s + "  :  "
     if isinstance(rw, int):
         return "".join(chr(rw + ord(ch) - 48) if "0" <= ch <= "9" else ch for ch in s)
     raise KeyError(rw)
@@ -97,14 +119,16 @@ def spaces(tier, seed):
         Product("generated-whitespace", {"src": ["gen"], "s": range(len(gen)), "rw": WS}),
         Product("generated-digit-blocks", {"src": ["gen"], "s": range(len(gen)), "rw": blocks_gen},
                 note="quick: the seed's stripe of blocks; thorough: all"),
+        Product("sanitizer-special-cases", {"src": ["special"], "s": range(len(SPECIAL)), "rw": WS + BLOCKS},
+                note="one string per special case of the sanitizer, epoch-like numbers, and strings parsed through date_formats"),
     ]
 
 
 _memo = {}
 
 
-def _p(s, lang):
-    o = api.outcome_of(api.gdd, s, [lang] if lang else None, None, None, {"RELATIVE_BASE": BASE})
+def _p(s, lang, fmts=None):
+    o = api.outcome_of(api.gdd, s, [lang] if lang else None, None, None, {"RELATIVE_BASE": BASE}, fmts)
     if o[0] == "exc":
         return ("exc", o[1], o[3])
     return (o[1].date_obj, o[1].period, o[1].locale)
@@ -112,7 +136,12 @@ def _p(s, lang):
 
 def run_case(sub, c):
     cor, gen = strings()
-    src, lang, s = (cor if c["src"] == "corpus" else gen)[c["s"]]
+    fmts = None
+    if c["src"] == "special":
+        lang, s, fmts = SPECIAL[c["s"]]
+        src = "special"
+    else:
+        src, lang, s = (cor if c["src"] == "corpus" else gen)[c["s"]]
     s2 = rewrite(s, c["rw"])
     if s2 == s:
         return None
@@ -120,22 +149,30 @@ def run_case(sub, c):
     if k not in _memo:
         if len(_memo) > 64:
             _memo.clear()
-        _memo[k] = _p(s, lang)
+        _memo[k] = _p(s, lang, fmts)
     a = _memo[k]
-    b = _p(s2, lang)
+    b = _p(s2, lang, fmts)
     nontriv = isinstance(a[0], datetime)
-    same = a[:2] == b[:2] and (lang is None or a[2] == b[2])
+    # the reported locale is compared only where it is fixed by the selection; through date_formats a match on the raw string reports no locale
+    same = a[:2] == b[:2] and (lang is None or fmts is not None or a[2] == b[2])
     if same:
         return ("same-value" if nontriv else "same-none"), nontriv, None
     kind = "digits" if isinstance(c["rw"], int) else c["rw"]
     what = "exception" if b[0] == "exc" else ("value-to-none" if b[0] is None else ("none-to-value" if a[0] is None else "different-value"))
-    return "bad", True, {"cls": {"form": src, "rewrite": kind, "what": what},
+    cls = {"form": src, "rewrite": kind, "what": what}
+    if src == "special":
+        cls["string"] = s
+        cls["date_formats"] = bool(fmts)
+    return "bad", True, {"cls": cls,
                          "expected": a, "observed": b,
-                         "detail": {"string": s, "rewritten": s2, "language": lang,
+                         "detail": {"string": s, "rewritten": s2, "language": lang, "date_formats": fmts,
                                     "block": ("U+%04X" % c["rw"]) if isinstance(c["rw"], int) else None}}
 
 
 def describe(sub, c):
     cor, gen = strings()
+    if c["src"] == "special":
+        lang, s, _ = SPECIAL[c["s"]]
+        return {"string": s, "rewritten": rewrite(s, c["rw"]), "language": lang}
     src, lang, s = (cor if c["src"] == "corpus" else gen)[c["s"]]
     return {"string": s, "rewritten": rewrite(s, c["rw"]), "language": lang}
